@@ -207,7 +207,7 @@ def call_text_len(c: dict[str, Any]) -> int:
 
 def _probe_calls(w: Any, base: dict[str, Any], n: int) -> list[dict[str, Any]]:
     out = []
-    for text in [corpus.PROBE_ALL] + w.sample(corpus.PROBE_DOCS, n - 1):
+    for text in [corpus.PROBE_ALL] + [corpus.gen_sentence_mix(w) if w.random() < 0.3 else t for t in w.sample(corpus.PROBE_DOCS, n - 1)]:
         o = dict(base) if w.random() < 0.75 else corpus.gen_options(w, allow_plaintext=False)
         o["plaintext"] = False
         out.append({"api": "reformat_text", "text": text, "kw": o})
@@ -224,7 +224,7 @@ def gen_probe_case(run_seed: int, tier: str, shape: str) -> dict[str, Any]:
     base = corpus.gen_options(w, allow_plaintext=False)
     if w.random() < 0.6:
         base["width"] = w.choice([40, 88, 88])
-    kinds = ["plain", "plain", "random", "pair_a", "probe"]
+    kinds = ["plain", "plain", "random", "pair_a", "probe", "mix"]
 
     def victim_text() -> str:
         k = w.choice(kinds)
@@ -234,6 +234,8 @@ def gen_probe_case(run_seed: int, tier: str, shape: str) -> dict[str, Any]:
             return corpus.gen_doc(w)
         if k == "pair_a":
             return corpus.gen_interference_pair(w)[0]
+        if k == "mix":
+            return corpus.gen_sentence_mix(w)
         return w.choice(corpus.PROBE_DOCS)
 
     threads: list[list[dict[str, Any]]] = []
@@ -277,6 +279,8 @@ def gen_case(run_seed: int, tier: str) -> dict[str, Any]:
         pool += [a, b]
     for _ in range(w.randint(0, 2)):
         pool.append(corpus.gen_doc(w))
+    for _ in range(w.randint(0, 3)):
+        pool.append(corpus.gen_sentence_mix(w))
     pool.append(corpus.DISCRIMINATING_DOC)
     base = corpus.gen_options(w, allow_plaintext=False) if w.random() < 0.7 else None
     total_calls = 0
